@@ -248,8 +248,10 @@ FIELDNAME_MEMBERS = {
     "closure-in-method-reads": (["fn m(self) -> int {", "\th = fn() -> int {", "\t\treturn count", "\t}", "\treturn h() + self.count", "}"], "m()", lambda o, f: (o + f, o)),
     "method-calls-sibling-that-reads": (["fn m(self) -> int {", "\treturn self.r() + 1", "}", "fn r(self) -> int {", "\treturn count", "}"], "m()", lambda o, f: (o + 1, o)),
     "constructor-reads": (["fn m(self) -> int {", "\treturn self.seen", "}"], "m()", lambda o, f: (100, o)),
+    # `start` is the name of the constructor's parameter AND of a variable of the enclosing scope (300): in another member it is that variable
+    "method-reads-the-name-of-a-constructor-parameter": (["fn m(self) -> int {", "\treturn start + self.count", "}"], "m()", lambda o, f: (300 + f, o)),
 }
-FIELDNAME_OWNERS = ("module", "function", "escaped")
+FIELDNAME_OWNERS = ("module", "function", "escaped", "returned")
 
 
 def fieldname_program(member, owner):
@@ -270,13 +272,33 @@ def fieldname_program(member, owner):
             pr, outer = FIELDNAME_MEMBERS[nm][2](outer, fld)
             use += [f"print {obj}.{call}", f"print {obj}.own()"]
             exp += [str(pr), str(fld)]
+    if owner == "returned":
+        # the function that owns `count` and declares the class has RETURNED when the class is instantiated and its members run, and the code that
+        # asks for it has variables of the same names: the class itself has to capture what its members use.  (The class type is not visible outside
+        # its function, so the function hands out a dispatcher: object with field s, member number k)
+        disp = ["return fn(s: int, k: int) -> int {", "\tob = Counter(s)"]
+        for k, (nm, call) in enumerate(calls):
+            disp += [f"\tif k == {k} {{", f"\t\treturn ob.{call}", "\t}"]
+        disp += ["\treturn ob.own()", "}"]
+        src = (["host = fn() -> (fn(int, int) -> int) {"] + ind(["count = 100", "start = 300"] + cls + disp, 1) + ["}", "dsp = host()",
+               "caller = fn(s: int, k: int) -> int {", "\tcount = 7", "\tstart = 8", "\treturn dsp(s + count - count + start - start, k)", "}"])
+        outer, exp = 100, []
+        for fld in (1, 2, 1):
+            for k, (nm, call) in enumerate(calls):
+                seen = outer          # here every call builds a fresh object: its constructor reads the variable as it is now
+                pr, outer = FIELDNAME_MEMBERS[nm][2](outer, fld)
+                if nm == "constructor-reads":
+                    pr = seen
+                src += [f"print caller({fld}, {k})", f"print caller({fld}, {len(calls)})"]
+                exp += [str(pr), str(fld)]
+        return "\n".join(src) + "\n", exp
     if owner == "module":
-        src = ["count = 100"] + cls + use + ["print count"]
+        src = ["count = 100", "start = 300"] + cls + use + ["print count"]
     elif owner == "function":
-        src = ["host = fn() {"] + ind(["count = 100"] + cls + use + ["print count"], 1) + ["}", "host()"]
+        src = ["host = fn() {"] + ind(["count = 100", "start = 300"] + cls + use + ["print count"], 1) + ["}", "host()"]
     else:
         # the objects are handed out; the function that owns `count` has returned when the members run
-        src = ["count = 100"] + cls + ["mk = fn(s: int) -> Counter {", "\treturn Counter(s)", "}"] + [u.replace("Counter(", "mk(") for u in use] + ["print count"]
+        src = ["count = 100", "start = 300"] + cls + ["mk = fn(s: int) -> Counter {", "\treturn Counter(s)", "}"] + [u.replace("Counter(", "mk(") for u in use] + ["print count"]
     exp.append(str(outer))
     return "\n".join(src) + "\n", exp
 
